@@ -1,6 +1,7 @@
 import QipVerif.Lemmas.RenderLinks2
 /-! C20: `links_reach` — the explicit plans of the three linked element kinds. -/
 namespace QipVerif.Render
+variable {v : Variant}
 
 theorem nodup_lmin_lt_lmax {ts : List Nat} (hn : ts.Nodup) (h2 : 2 ≤ ts.length) : lmin ts < lmax ts := by
   match ts, hn, h2 with
@@ -15,37 +16,131 @@ theorem nodup_lmin_lt_lmax {ts : List Nat} (hn : ts.Nodup) (h2 : 2 ≤ ts.length
     omega
 
 /-- the plan of a boxed gate with (non-empty) controls -/
-theorem plan_multi (p N C : Nat) (name : Str) (lab : Option Str) (ts cs : List Nat)
+theorem plan_multi (v : Variant) (p N C : Nat) (name : Str) (lab : Option Str) (ts cs : List Nat)
     (hswap : name ≠ swapName) (hne : ts ≠ []) (hcs : cs ≠ []) :
-    plan p N C (.gate name lab ts (some cs)) = .ok
+    plan v p N C (.gate name lab ts (some cs)) = .ok
       { wl := pyRange (lmin (ts ++ cs)) (lmax (ts ++ cs) + 1)
-        width := (drawMultiq p (gateText name lab) ts (some cs)).top.length
-        acts := updTargetMultiq ts (pyRange (lmin ts) (lmax ts + 1)) (drawMultiq p (gateText name lab) ts (some cs)) ++
-          (if lmax cs > lmin ts then updQbridge ts cs (pyRange (lmin ts) (lmax cs + 1))
-            (drawMultiq p (gateText name lab) ts (some cs)).top.length true else []) ++
-          (if lmin cs < lmax ts then updQbridge ts cs (pyRange (lmin cs) (lmax ts + 1))
-            (drawMultiq p (gateText name lab) ts (some cs)).top.length false else []) } := by
+        width := (drawMultiq v p (gateText name lab) ts (some cs)).top.length
+        acts := updTargetMultiq v ts cs (pyRange (lmin ts) (lmax ts + 1)) (drawMultiq v p (gateText name lab) ts (some cs)) ++
+          (if isTop v cs ts = true then updQbridge v ts cs (pyRange (lmin ts) (lmax cs + 1))
+            (drawMultiq v p (gateText name lab) ts (some cs)).top.length true else []) ++
+          (if isBot v cs ts = true then updQbridge v ts cs (pyRange (lmin cs) (lmax ts + 1))
+            (drawMultiq v p (gateText name lab) ts (some cs)).top.length false else []) } := by
   have h1 : ¬ (ts.length = 1 ∧ (some cs : Option (List Nat)) = none) := by simp
   have hne' : ts.isEmpty = false := by cases ts <;> simp_all
   have htr : truthy (some cs) = true := by cases cs <;> simp_all [truthy]
-  simp only [plan, if_neg h1, if_neg hswap, hne', htr, ctrlList, Option.getD_some, Bool.false_eq_true, if_false, if_true]
-  congr 3
-  · by_cases h : lmax cs > lmin ts <;> simp [h]
-  · by_cases h : lmin cs < lmax ts <;> simp [h]
+  simp only [plan, planGate, if_neg h1, if_neg hswap, hne', htr, ctrlList, Option.getD_some, Bool.false_eq_true,
+    if_false, if_true]
+  rfl
 
-theorem plan_swap (p N C : Nat) (lab : Option Str) (ts : List Nat) (cs : Option (List Nat))
+theorem plan_swap (v : Variant) (p N C : Nat) (lab : Option Str) (ts : List Nat) (cs : Option (List Nat))
     (h1 : ¬ (ts.length = 1 ∧ cs = none)) (hne : ts ≠ []) :
-    plan p N C (.gate swapName lab ts cs) = .ok
+    plan v p N C (.gate swapName lab ts cs) = .ok
       { wl := pyRange (lmin ts) (lmax ts + 1), width := 4 * p + 1,
         acts := updSwap p (pyRange (lmin ts) (lmax ts + 1)) } := by
   have hne' : ts.isEmpty = false := by cases ts <;> simp_all
-  simp only [plan, if_neg h1, hne', if_true, Bool.false_eq_true, if_false]
+  simp only [plan, planGate, if_neg h1, hne', if_true, Bool.false_eq_true, if_false]
 
-theorem plan_meas (p N C t0 s : Nat) :
-    plan p N C (.meas [t0] s) = .ok
+theorem plan_meas (v : Variant) (p N C t0 s : Nat) :
+    plan v p N C (.meas [t0] s) = .ok
       { wl := pyRange 0 (t0 + 1) ++ pyRange (s + N) (N + C), width := (drawMeas p N t0 s).top.length,
         acts := updSingleq [t0] (drawMeas p N t0 s) ++
           updCbridge N t0 s (pyRange 0 (t0 + 1) ++ pyRange (s + N) (N + C)) (drawMeas p N t0 s).top.length } := rfl
+
+/-! ## facts about the two variants of the box-span tests -/
+
+theorem isTop_of_above (v : Variant) {ts cs : List Nat} (hne : ts ≠ []) {ctl : Nat} (hc : ctl ∈ cs)
+    (h : lmax ts < ctl) : isTop v cs ts = true := by
+  have h1 : ctl ≤ lmax cs := le_lmax hc
+  have h2 : lmin ts ≤ lmax ts := lmin_le (lmax_mem hne)
+  unfold isTop
+  split <;> simp <;> omega
+
+theorem isBot_of_below (v : Variant) {ts cs : List Nat} (hne : ts ≠ []) {ctl : Nat} (hc : ctl ∈ cs)
+    (h : ctl < lmin ts) : isBot v cs ts = true := by
+  have h1 : lmin cs ≤ ctl := lmin_le hc
+  have h2 : lmin ts ≤ lmax ts := lmin_le (lmax_mem hne)
+  unfold isBot
+  split <;> simp <;> omega
+
+theorem not_inBox_of_outside (v : Variant) {ts : List Nat} {w : Nat} (h : lmax ts < w ∨ w < lmin ts) :
+    ¬ inBox v ts w = true := by
+  unfold inBox
+  split
+  · simp; omega
+  · simp only [decide_eq_true_eq]
+    intro hm
+    have := le_lmax hm
+    have := lmin_le hm
+    omega
+
+theorem setChar_get_lt (s : Str) {i j : Nat} (c : Char) (hi : i < s.length) (hj : j < i) :
+    (setChar s i c)[j]? = s[j]? := by
+  unfold setChar
+  rw [List.getElem?_append_left (by simp; omega), List.getElem?_take]
+  simp [hj]
+
+/-! ## validity implies coverage on a repaired tree -/
+
+def Op.isGlob : Op → Bool
+  | .glob _ _ => true
+  | _ => false
+
+theorem opOk_of_valid {v : Variant} (hv : v.spanFix = true) {N C : Nat} {op : Op}
+    (hg : op.isGlob = true → v.globalBox = true) (h : opValid N C op = true) (hN : 1 ≤ N) : opOk v N op = true := by
+  cases op with
+  | meas targets store =>
+    match targets, h with
+    | [t0], h =>
+      simp only [opValid, Bool.and_eq_true, decide_eq_true_eq] at h
+      simp [opOk, h.1]
+  | gate name argLabel targets controls =>
+    simp only [opValid, Bool.and_eq_true] at h
+    simp only [opOk, gateOk, Bool.and_eq_true, Bool.or_eq_true]
+    exact ⟨h.1, Or.inl (Or.inr hv)⟩
+  | glob name argLabel =>
+    have hgb := hg rfl
+    simp only [opOk, gateOk, hgb, Bool.true_and, Bool.and_eq_true, Bool.or_eq_true]
+    refine ⟨⟨?_, ?_⟩, Or.inl (Or.inr hv)⟩
+    · cases N with
+      | zero => omega
+      | succ n => simp [List.range_succ]
+    · simp [ctrlList]
+
+theorem circOk_of_valid {v : Variant} (hv : v.spanFix = true) {sty : Style} {c : Circ}
+    (hg : ∀ op ∈ c.ops, op.isGlob = true → v.globalBox = true) (h : circValid sty c = true) :
+    circOk v sty c = true := by
+  simp only [circValid, circOk, Bool.and_eq_true, List.all_eq_true] at h ⊢
+  exact ⟨h.1, fun op hop => opOk_of_valid hv (hg op hop) (h.2 op hop) (styleOk_N h.1)⟩
+
+/-- the exception of a drawing, if any -/
+def renderErr (v : Variant) (sty : Style) (c : Circ) : Option Err :=
+  match render v sty c with
+  | .error e => some e
+  | .ok _ => none
+
+/-- every element of a circuit whose loop runs through has a plan -/
+theorem steps_plan_ok {v : Variant} {sty : Style} {N C : Nat} {ops : List Op} {st st' : St}
+    (h : steps v sty N C st ops = .ok st') : ∀ op ∈ ops, ∃ pl, plan v sty.pad N C op = .ok pl := by
+  induction ops generalizing st with
+  | nil => intro op hop; cases hop
+  | cons o ops ih =>
+    unfold steps at h
+    split at h
+    · cases h
+    · rename_i st1 h1
+      intro op hop
+      rcases List.mem_cons.mp hop with rfl | hop
+      · obtain ⟨pl, hpl, _⟩ := step_ok h1
+        exact ⟨pl, hpl⟩
+      · exact ih h op hop
+
+theorem control_trichotomy {ts cs : List Nat} (hnd : (ts ++ cs).Nodup) (hne : ts ≠ []) {ctl : Nat} (hc : ctl ∈ cs) :
+    lmax ts < ctl ∨ ctl < lmin ts ∨ (lmin ts < ctl ∧ ctl < lmax ts) := by
+  have hnt : ctl ∉ ts := fun h => (List.nodup_append.mp hnd).2.2 ctl h ctl hc rfl
+  have h1 : ctl ≠ lmin ts := fun h => hnt (h ▸ lmin_mem hne)
+  have h2 : ctl ≠ lmax ts := fun h => hnt (h ▸ lmax_mem hne)
+  omega
 
 /-! ## the example circuit used for the non-vacuity checks in Props/C20 -/
 
